@@ -144,6 +144,12 @@ def run_c03(pid):
     n = 700 if t == "quick" else 8000
     plan_list = [P.stream_plan(rnd, i + 1, small=(t == "quick" or i % 10 != 0)) for i in range(n)]
     plan_list += P.directed_valid(n + 100)
+    # the template of the long variable-blocksize stream (sample numbers beyond 2^31, the 36-bit range): ONE model-made frame of 65535
+    # constant samples, which the driver repeats 32771 times with the sample numbers recoded (harness decodeh::long_variable)
+    long_id = n + 90
+    plan_list.append({"id": long_id, "channels": 1, "bps": 8, "rate": 44100, "ratecode": "table", "bpscode": "hdr", "variable": True, "total_known": True,
+                      "md5": "zero", "subset": True, "long_template": True,
+                      "frames": [{"bs": 65535, "chassign": "indep", "subs": [{"type": "constant", "wasted": 0}], "bscode": "16", "overlong": 0}], "pcm": [[-77] * 65535]})
     gen = generate(wd, plan_list, "valid")
     by_plan = {p["id"]: p for p in plan_list}
     items = []
@@ -160,6 +166,10 @@ def run_c03(pid):
             lay.append([off, s0, f["bs"]])
             off += ln
             s0 += f["bs"]
+        if p.get("long_template"):
+            items.append({"id": g["id"], "bytes": g["bytes"], "bps": p["bps"], "metaLen": g["metaLen"], "frameLens": g["frameLens"], "valid": True,
+                          "md5mode": "zero", "subset": True, "class": "long-variable", "repeat_frame": 32771, "plan": {k: p[k] for k in p if k != "pcm"}})
+            continue
         items.append({"id": g["id"], "bytes": g["bytes"], "pcm": g["pcm"], "bps": p["bps"], "metaLen": g["metaLen"], "frameLens": g["frameLens"],
                       "layout": lay, "valid": True, "md5mode": p["md5"], "subset": p["subset"], "class": "valid",
                       "plan": {k: p[k] for k in p if k != "pcm"}})
